@@ -14,7 +14,8 @@ EXTENDS Naturals, Integers, Sequences, FiniteSets, TLC
 Positions == {"arg", "field", "array", "attr", "rep", "repfield"}     \* rep(field): a repeated argument / member (max_occurs > 1), not an Array
 \* msgpack_bin: MessagePack with every text leaf sent as bin holding its UTF-8 bytes (how the protocol itself writes text, and what
 \* packing Python byte strings produces): the facets are about the text whichever way it is packed
-Families  == {"xml", "soap11", "soap12", "json", "yaml", "msgpack", "msgpack_bin", "http"}
+\* jsonrpc: JsonRpc('spyne'), the JSON envelope protocol ({"ver": 1, "body": {method: arguments}}) - the same documents inside
+Families  == {"xml", "soap11", "soap12", "json", "yaml", "msgpack", "msgpack_bin", "http", "jsonrpc"}
 TextFamilies == {"xml", "soap11", "soap12", "http"}
 
 \* ------------------------------------------------------------------- numbers
